@@ -80,7 +80,7 @@ type inputModel struct {
 }
 
 func replayDir(prop string) string {
-	d := filepath.Join(verifDir, "replays", prop)
+	d := filepath.Join(outDir, "replays", prop)
 	os.MkdirAll(d, 0o755)
 	return d
 }
